@@ -12,6 +12,59 @@ import re, sys
 from common import *
 
 
+def _non_test(rel):
+    src = read(rel)
+    m = re.search(r"#\[cfg\(test\)\]\s*mod\s+\w+\s*\{", src)
+    if m:
+        src = src[: m.start()]
+    return strip_comments(src)
+
+
+def receipt_sites():
+    """where the interpreter (non-test code of fuel-vm/src) BUILDS Revert / Panic / ScriptResult receipts, and who calls
+    the two helper functions that do it: (kind, file, enclosing fn) triples, sorted"""
+    import os
+    root = os.path.join(REPO, "fuel-vm", "src")
+    built, callers = [], []
+    for d, _, fs in sorted(os.walk(root)):
+        for f in sorted(fs):
+            if not f.endswith(".rs"):
+                continue
+            rel = os.path.relpath(os.path.join(d, f), REPO)
+            if "/tests/" in rel or f == "tests.rs" or f.endswith("_tests.rs") or "/test_helpers" in rel or f == "test_helpers.rs":
+                continue
+            src = _non_test(rel)
+            fns = [(m.start(), m.group(1)) for m in re.finditer(r"\bfn\s+(\w+)", src)]
+            impls = [(m.start(), m.group(1)) for m in re.finditer(r"\bimpl\b[^{;]*?\bfor\s+([\w:]+)", src)]
+            def encl(pos):
+                name = "?"
+                for st, n in fns:
+                    if st < pos:
+                        name = n
+                if name == "execute":  # the per-opcode `impl Execute for fuel_asm::op::XXX`
+                    who = "?"
+                    for st, n in impls:
+                        if st < pos:
+                            who = n.split("::")[-1]
+                    name = who + "::execute"
+                return name
+            short = rel.replace("fuel-vm/src/", "")
+            for m in re.finditer(r"\bReceipt::(revert|panic|script_result)\s*\(|\bReceipt::(Revert|Panic|ScriptResult)\s*\{", src):
+                kind = (m.group(1) or {"Revert": "revert", "Panic": "panic", "ScriptResult": "script_result"}[m.group(2)])
+                # a pattern (`matches!(r, Receipt::Panic { .. })`, match arms) is not a construction
+                tail = src[m.end(): m.end() + 200]
+                if m.group(2) and re.match(r"\s*(\.\.|[\w\s,:]*\.\.\s*\}|[\w\s,]*\}\s*(=>|\)|\|))", tail):
+                    continue
+                built.append((kind, short, encl(m.start())))
+            for m in re.finditer(r"(?<!fn )\b(append_panic_receipt)\s*\(|(?<![\w.])(?<!fn )(revert)\s*\(\s*&mut|\.(revert)\s*\(", src):
+                name = m.group(1) or m.group(2) or m.group(3)
+                form = "method" if m.group(3) else "fn"
+                if name == "revert" and form == "method" and "interpreter/" not in short:
+                    continue  # MemoryStorage::revert etc. are storage roll-backs, not the RVRT helper
+                callers.append((name if form == "fn" else "." + name, short, encl(m.start())))
+    return sorted(set(built)), sorted(set(callers))
+
+
 def main():
     r = strip_comments(read("fuel-vm/src/interpreter/receipts.rs"))
     m = need(re.search(r"pub const MAX_RECEIPTS: usize = (.*?);", r), "receipts.rs MAX_RECEIPTS")
@@ -111,7 +164,18 @@ def main():
          "    `self.frames.clear();` resp. `self.receipts.clear();` -/",
          "def initClearsFrames : Bool := %s" % str(clears_frames).lower(),
          "def initClearsReceipts : Bool := %s" % str(clears_receipts).lower(),
-         "", "end FuelVerif.Gen"]
+         ""]
+    built, callers = receipt_sites()
+    if not built:
+        raise TranslateError("no Revert/Panic/ScriptResult receipt construction found in fuel-vm/src")
+    fmt = lambda xs: "[" + ", ".join('("%s", "%s", "%s")' % x for x in xs) + "]"
+    L += ["/-- every place in the non-test code of fuel-vm/src that BUILDS a Revert / Panic / ScriptResult receipt:",
+          "    (constructor, file, enclosing fn) -/",
+          "def receiptBuilders : List (String × String × String) := " + fmt(built),
+          "/-- every call of the two helpers that build them (`append_panic_receipt`, the free fn `revert(&mut ..)` and",
+          "    the `Interpreter::revert` method inside fuel-vm/src/interpreter): (callee, file, enclosing fn) -/",
+          "def receiptHelperCallers : List (String × String × String) := " + fmt(callers),
+          "", "end FuelVerif.Gen"]
     changed = write_if_changed("Outcome.lean", "\n".join(L) + "\n")
     print("outcome: MAX_RECEIPTS=%d should_revert=%s init_inner clears frames=%s receipts=%s%s" % (maxr, "|".join(kinds[0]), clears_frames, clears_receipts, " (changed)" if changed else ""))
 
